@@ -86,6 +86,10 @@ type propStats struct {
 	WallS       float64           `json:"wall_s"`
 	Extra       map[string]int    `json:"extra,omitempty"`
 	ExcludedEx  map[string]string `json:"excluded_examples,omitempty"`
+	// MinFrac / MaxKnownFrac are handed to the driver, which applies them to
+	// the totals over all shards (a per-shard test would be needlessly noisy).
+	MinFrac      map[string]float64 `json:"min_frac,omitempty"`
+	MaxKnownFrac float64            `json:"max_known_frac,omitempty"`
 }
 
 type statsFile struct {
@@ -465,22 +469,11 @@ func Run[C any](t *testing.T, p Prop[C]) {
 		mu.Lock()
 		stats.Violations = append(stats.Violations, violation{Prop: p.Name, Kind: lastFail.Kind, Msg: lastFail.Msg, Replay: path, Case: sampleOf(lastCase)})
 		mu.Unlock()
-	} else if ps.Evaluations >= 200 {
-		ex := 0
-		for _, n := range ps.Excluded {
-			ex += n
-		}
-		maxFrac := p.MaxKnownFrac
-		if maxFrac == 0 {
-			maxFrac = 0.5
-		}
-		if float64(ex) > maxFrac*float64(ps.Evaluations) {
-			ps.Starved = append(ps.Starved, fmt.Sprintf("known-finding predicates explain %d of %d cases (> %.2f): too little is asserted", ex, ps.Evaluations, maxFrac))
-		}
-		for l, frac := range p.MinFrac {
-			if float64(ps.Classes[l]) < frac*float64(ps.Evaluations) {
-				ps.Starved = append(ps.Starved, fmt.Sprintf("%s: %d of %d (< %.3f)", l, ps.Classes[l], ps.Evaluations, frac))
-			}
+	} else {
+		ps.MinFrac = p.MinFrac
+		ps.MaxKnownFrac = p.MaxKnownFrac
+		if ps.MaxKnownFrac == 0 {
+			ps.MaxKnownFrac = 0.5
 		}
 	}
 	mu.Lock()
